@@ -56,7 +56,8 @@ def starve_cases(seed):
 
 def run(tier, seed, proof):
     res = l1.run_property(PROP, tier, seed, proof, FAMILIES, MONS, [], nontrivial, RULE + STARVE_RULE + LIST_RULE + loopgen.ENUM_RULE,
-                          extra_cases=lambda tier, seed: starve_cases(seed) + loopgen.quit_cases())
+                          extra_cases=lambda tier, seed: starve_cases(seed) + loopgen.quit_cases() +
+                          [c for c in loopgen.ktimer_cases(seed) if "kreg" in " ".join(c[1])])
     # the intrusive list the task queue (and every other queue of the library) is built from: pointer-level model, differential run
     if proof["driver_ok"]:
         c06list.check(tier, seed, res)
